@@ -21,6 +21,7 @@ import (
 	"pgregory.net/rapid"
 
 	"verif/harness/internal/evi"
+	"verif/harness/internal/xcbor"
 )
 
 // c40Verdict is what the library's validators say about one (header, body, context).
@@ -468,6 +469,54 @@ func TestC40(t *testing.T) {
 			rec.Class("neg_wire_field")
 		}
 
+		// (1b) same header data, one integer head re-encoded in a longer form (the signed
+		// bytes change although no field value does): the signature must not survive
+		{
+			tree := hdr.bodyTree()
+			idx := []int{0, 1}[int(rmut>>40)%2]
+			w := []int{1, 2, 4, 8}[int(rmut>>42)%4]
+			n := tree.Items[idx]
+			for n.Width >= w {
+				w *= 2
+			}
+			if w <= 8 {
+				n.Width = w
+				nb := tree.Encode()
+				if bytes.Equal(nb, hdr.bodyBytes()) {
+					rt.Fatalf("harness: re-encoding is a no-op")
+				}
+				hb := xcbor.A(tree, xcbor.B(hdr.Sig)).Encode()
+				blockBytes := assembleBlock(hb, body)
+				rec.EvalN(3)
+				ex := map[string]any{"mutation": "wire:non-minimal-int-head", "mutated_header": evi.Hex(hb)}
+				in := ctx.input(hdr)
+				in.HeaderBodyCbor = nb
+				if ctx.validator().ValidateHeader(in).Valid {
+					if !failc("accept:wire:reencoded-body:ValidateHeader", "ValidateHeader accepts the signature over differently encoded body bytes", ex) {
+						return
+					}
+				}
+				cfg := common.VerifyConfig{SkipTransactionValidation: true, SkipStakePoolValidation: true}
+				if blk, err := ledger.NewBlockFromCbor(era.BlockType, blockBytes); err == nil {
+					if ok, _, _, _, err := ledger.VerifyBlock(blk, hex.EncodeToString(ctx.EpochNonce), spk, cfg); ok && err == nil {
+						if !failc("accept:wire:reencoded-body:VerifyBlock", "VerifyBlock accepts a header whose body bytes were re-encoded (non-minimal integer head) under the old signature", ex) {
+							return
+						}
+					}
+					rec.Class("reencoded_body_decoded")
+				} else {
+					rec.Class("reencoded_body_rejected_at_decode")
+				}
+				if hd, err := ledger.NewBlockHeaderFromCbor(era.BlockType, hb); err == nil {
+					if ok, err := ledger.VerifyKes(hd, spk); ok && err == nil {
+						if !failc("accept:wire:reencoded-body:VerifyKes", "ledger.VerifyKes accepts a header whose body bytes were re-encoded under the old signature", ex) {
+							return
+						}
+					}
+				}
+			}
+		}
+
 		// (2) body changes: one bit somewhere in the body segments; a different body
 		full := assembleBlock(hdr.headerBytes(), body)
 		hl := 1 + len(hdr.headerBytes())
@@ -534,8 +583,10 @@ func TestC40(t *testing.T) {
 			h2.Sig = s
 			return true
 		}
-		attackerKes := genSeed32(rt, "attackerKesSeed")
-		attackerCold := genSeed32(rt, "attackerColdSeed")
+		// attacker keys are derived so that they can never coincide with the pool's
+		ak32 := blake2b.Sum256(append(append([]byte("attacker-kes"), keys.KesSeed...), genSeed32(rt, "attackerKesSeed")...))
+		ac32 := blake2b.Sum256(append(append([]byte("attacker-cold"), keys.ColdSeed...), genSeed32(rt, "attackerColdSeed")...))
+		attackerKes, attackerCold := ak32[:], ac32[:]
 		type rs struct {
 			name string
 			f    func(h2 *hdrFields) (seed []byte, e uint64)
